@@ -1029,6 +1029,16 @@ impl<'a> CompilerState<'a> {
         }
     }
 
+    // The number of elements written between the brackets of a declaration
+    fn array_size(&self, px: Pair<'a, Rule>) -> Result<usize, Error> {
+        let start = px.as_span().start();
+        let n = self.parse_calc(px.into_inner())?;
+        if n < 0 {
+            return Err(self.syntax_error("Negative array size", start));
+        }
+        Ok(n as usize)
+    }
+
     fn parse_calc(&self, pairs: Pairs<'a, Rule>) -> Result<i32, Error> {
         self.calculator
             .map_primary(|primary| -> Result<i32, Error> {
@@ -1317,7 +1327,7 @@ impl<'a> CompilerState<'a> {
                             Rule::array_spec => {
                                 start = p.as_span().start();
                                 if let Some(px) = p.into_inner().next() {
-                                    size = Some(self.parse_calc(px.into_inner())? as usize);
+                                    size = Some(self.array_size(px)?);
                                 }
                                 if var_type == VariableType::Char {
                                     var_type = VariableType::CharPtr;
@@ -1835,7 +1845,7 @@ impl<'a> CompilerState<'a> {
                                     Rule::array_spec => {
                                         start = p.as_span().start();
                                         if let Some(px) = p.into_inner().next() {
-                                            size = Some(self.parse_calc(px.into_inner())? as usize);
+                                            size = Some(self.array_size(px)?);
                                         }
                                         if var_type == VariableType::Char {
                                             var_type = VariableType::CharPtr;
@@ -2150,7 +2160,7 @@ impl<'a> CompilerState<'a> {
                                 Rule::array_spec => {
                                     start = pair.as_span().start();
                                     if let Some(px) = pair.into_inner().next() {
-                                        size = Some(self.parse_calc(px.into_inner())? as usize);
+                                        size = Some(self.array_size(px)?);
                                     }
                                     if var_type == VariableType::Char {
                                         var_type = VariableType::CharPtr;
